@@ -140,6 +140,11 @@ Definition run_fs (st : option Loaded) (rt : option Routing) (F : fs) (op : stri
         match t_strs attrs with
         | Some a => pure (t_out t_record (get_data_all Ld Rt F s a (parse_enc enc)))
         | None => pure bad end
+    (* a long-lived Finder instance: the model is pure, so it answers like a new one; a partially consumed generator
+       (numeric count) is not compared *)
+    | "pfind", [L "all"; L _; L q; L "all"] => pure (t_out sorted_strs (find_all Ld Rt F q))
+    | "pfind", [L "paths"; L cfg; L q; L "all"] => pure (t_out sorted_strs (ffind Ld F (FPaths "" (default_cfg Ld cfg)) q))
+    | "pfind", [_; _; _; _] => pure (N [L "raise"; L "Unmodelled"])
     | "find_paths", [L cfg; L q] => pure (t_out sorted_strs (ffind Ld F (FPaths "" (default_cfg Ld cfg)) q))
     | "find_all", [L q] => pure (t_out sorted_strs (find_all Ld Rt F q))
     | "sid_exists", [s] => on_sid s (fun x => t_out t_bool (sid_exists Ld Rt F x))
